@@ -18,6 +18,12 @@ package syncer
 // ground facts about case folding (each is a closed instance of strings.EqualFold)
 //@ axiom brackets_are_not_publish_or_select: !rdbrestore.SpecEqualFold("multi", "publish") && !rdbrestore.SpecEqualFold("exec", "publish") && !rdbrestore.SpecEqualFold("multi", "select") && !rdbrestore.SpecEqualFold("exec", "select")
 
+//@ func isTransactionBracket
+//@   arith int
+//@   properties C01 C09
+//@   modifies nothing
+//@   ensures exact: result <==> (cmd == "multi" || cmd == "exec")
+
 //@ func RedisOutput.parseAofCommand
 //@   arith int
 //@   properties C07 C01 C09
